@@ -16,6 +16,7 @@ use crate::verif_oracle::*;
 
 pub mod cases;
 pub mod cases_cleanup;
+pub mod cases_parent;
 pub mod cases_recursive;
 pub mod cases_seq;
 pub mod cleanup;
